@@ -626,6 +626,59 @@ package main
 */
 
 /*@
+; ============================ command line: every command checks the store first (C16) ================
+; "the agent refuses to run any command on a directory that does not pass the check": each command reaches the store only after
+; openAndCheck returned without error, and exits with code 3 when it did not.
+
+(macro (cli-checks-first callee)
+  (callsite callee 0 (requires store-opened-and-checked-first (and (called "main.openAndCheck" 0) (= (callresult "main.openAndCheck" 0 1) nil)))))
+(macro (cli-refuses)
+  (ensures store-not-opened-means-3 (=> (not (= (callresult "main.openAndCheck" 0 1) nil)) (= (exitcode $r0) 3))))
+
+(func "main.cmdAdd"
+  (props C16 C17)
+  (noframe)
+  (cli-checks-first "(*main.Store).Add")
+  (callsite "(*main.Store).Add" 0 (requires given-arguments (and (= $1 (local username)) (= $2 (local password)) (not (= $1 "")) (not (= $2 "")) (not $3))))
+  (cli-refuses)
+  (ensures refused-means-3 (=> (and (called "(*main.Store).Add" 0) (not (= (callresult "(*main.Store).Add" 0 0) nil))) (= (exitcode $r0) 3))))
+
+(func "main.cmdUpdate"
+  (props C16 C17)
+  (noframe)
+  (cli-checks-first "(*main.Store).Update")
+  (callsite "(*main.Store).Update" 0 (requires given-arguments (and (= $1 (local username)) (= $2 (local password)) (not (= $1 "")) (not (= $2 "")))))
+  (cli-refuses)
+  (ensures refused-means-3 (=> (and (called "(*main.Store).Update" 0) (not (= (callresult "(*main.Store).Update" 0 0) nil))) (= (exitcode $r0) 3))))
+
+(func "main.cmdRemove"
+  (props C16)
+  (noframe)
+  (cli-checks-first "(*main.Store).Remove")
+  (callsite "(*main.Store).Remove" 0 (requires given-arguments (and (= $1 (local username)) (not (= $1 "")))))
+  (cli-refuses))
+
+(func "main.cmdSetAdmin"
+  (props C16)
+  (noframe)
+  (cli-checks-first "(*main.Store).SetAdmin")
+  (callsite "(*main.Store).SetAdmin" 0 (requires given-arguments (and (= $1 (local username)) (= $2 (local isAdmin)) (not (= $1 "")))))
+  (cli-refuses)
+  (ensures refused-means-3 (=> (and (called "(*main.Store).SetAdmin" 0) (not (= (callresult "(*main.Store).SetAdmin" 0 0) nil))) (= (exitcode $r0) 3))))
+
+; table printing: not verified and nothing is assumed about it (everything it could reach is havocked after the call)
+(extern "main.cmdListFull" (s) (noframe))
+(extern "main.cmdListSupported" (s) (noframe))
+
+(func "main.cmdList"
+  (props C16)
+  (noframe)
+  (cli-checks-first "main.cmdListFull")
+  (cli-checks-first "main.cmdListSupported")
+  (cli-refuses))
+*/
+
+/*@
 ; remote hash upgrade: the master is asked to re-authenticate with the login password (old password), never to set it blindly
 (func "main.remoteHTTPUpgrade"
   (noframe)
